@@ -206,16 +206,16 @@ func (w *Writer) recoverTail() error {
 
 	if finalCommit.offsetsLen < len(offsets) {
 		// Some entries were found after the last commit. Those must be a partial
-		// write that was uncommitted so can be ignored. But the fact they were
-		// written at all means that the last commit frame must have been completed
-		// and acknowledged so we don't need to verify anything. Just truncate the
-		// extra entries from index and reset the write cursor to continue appending
+		// write that was uncommitted so can be ignored. Just truncate the extra
+		// entries from index and reset the write cursor to continue appending
 		// after the last commit.
+		//
+		// Note that we can NOT assume the last commit was completed and
+		// acknowledged just because entry frames follow it: they may be left over
+		// from an earlier torn batch that was rewound and is now being overwritten
+		// by the batch this commit frame belongs to. So we still verify it below.
 		offsets = offsets[:finalCommit.offsetsLen]
 		w.offsets.Store(offsets)
-
-		// Since at least one commit was found, the header better be valid!
-		return validateFileHeader(*readInfo, w.info)
 	}
 
 	// Last frame was a commit frame! Let's check that all the data written in
